@@ -12,7 +12,9 @@ pub fn strip_wrappers(t: &str) -> (bool, bool, String) {
     let mut boxed = false;
     loop {
         if let Some(i) = s.strip_prefix("Option<").and_then(|x| x.strip_suffix('>')) {
-            opt = true;
+            // RustShape: an OPTIONAL component IS an Option<_>; an Option inside a Box (Box<Option<T>>) is a required
+            // field of another type and does not count
+            opt = opt || !boxed;
             s = i.to_string();
         } else if let Some(i) = s.strip_prefix("Box<").and_then(|x| x.strip_suffix('>')) {
             boxed = true;
